@@ -8,6 +8,9 @@ Spec == Init /\ [][Next]_x
 Ceil3(n) == (n + 2) \div 3
 RoundTrip == /\ HexDec(HexEnc(x)) = x /\ B64Dec(B64Enc(x)) = x /\ B64UrlDec(B64UrlEnc(x)) = x
              /\ HexToUint(UintToHex(x)) = x
+\* the position-by-position forms are the same functions
+IdxForms == /\ EncIdx(FALSE, x) = B64Enc(x) /\ EncIdx(TRUE, x) = B64UrlEnc(x)
+            /\ DecIdx(B64Enc(x)) = x /\ DecIdx(B64UrlEnc(x)) = x /\ DecIdx(B64Enc(x)) = B64Dec(B64Enc(x))
 Lengths == Len(HexEnc(x)) = 2 * Len(x) /\ Len(B64Enc(x)) = 4 * Ceil3(Len(x)) /\ Len(B64UrlEnc(x)) = 4 * Ceil3(Len(x))
 Alphabets == /\ \A i \in 1..(2 * Len(x)) : IsUpperHex(HexEnc(x)[i])
              /\ \A i \in 1..Len(B64Enc(x)) : InB64Alphabet(B64Enc(x)[i])
